@@ -883,7 +883,11 @@ func (w *fwalk) call(c *ast.CallExpr, st *fstate) []label {
 	}
 	name := callee.Name()
 	// sources
-	if recv != nil && (name == "Versions" || name == "Requirements" || name == "MatchingVersions") && w.isClientRecv(w.info.TypeOf(recv)) {
+	// sources: a call through an interface that has the Client methods (the
+	// implementation is unknown, so the result is client-owned); calls on a
+	// concrete client type use that method's summary instead (LocalClient's
+	// methods return its map entries, which are sources themselves).
+	if recv != nil && (name == "Versions" || name == "Requirements" || name == "MatchingVersions") && isIface(w.info.TypeOf(recv)) && w.isClientRecv(w.info.TypeOf(recv)) {
 		f, _ := w.pos(c)
 		w.tp.sources[[3]string{f, w.fi.short, "Client." + name}] = true
 		res[0] = clientBit
@@ -936,6 +940,13 @@ func (w *fwalk) call(c *ast.CallExpr, st *fstate) []label {
 		if ci.pkg != w.fi.pkg {
 			short = ci.pkg.Types.Name() + "." + short
 		}
+		sig, _ := callee.Type().(*types.Signature)
+		packedFrom := len(all) + 1
+		if sig != nil && sig.Variadic() && !c.Ellipsis.IsValid() {
+			// arguments from this position on are packed into a fresh slice:
+			// a write to that slice is not a write to the argument
+			packedFrom = len(ci.params) - 1
+		}
 		for i, l := range all {
 			if l == 0 {
 				continue
@@ -947,7 +958,7 @@ func (w *fwalk) call(c *ast.CallExpr, st *fstate) []label {
 			if pi < 0 {
 				continue
 			}
-			if sk, ok := ci.sinkParams[pi]; ok && !namedSinks[key] {
+			if sk, ok := ci.sinkParams[pi]; ok && !namedSinks[key] && i < packedFrom {
 				w.reach(c, l, short+">"+sk)
 			}
 			for fk, fl := range ci.fieldFlows {
@@ -976,6 +987,14 @@ func (w *fwalk) call(c *ast.CallExpr, st *fstate) []label {
 		}
 	}
 	return res
+}
+
+func isIface(t types.Type) bool {
+	if t == nil {
+		return false
+	}
+	_, ok := t.Underlying().(*types.Interface)
+	return ok
 }
 
 func identOf(e ast.Expr) *ast.Ident {
